@@ -288,11 +288,11 @@ impl LogState {
                         .into_os_string()
                         .into_string()
                         .expect("cannot format target as string");
-                    let fixname = redo::normpath(&mydir.as_path().join(g.text()))
-                        .into_owned()
-                        .into_os_string()
-                        .into_string()
-                        .expect("cannot format target as string");
+                    // The key under which a nested target is remembered and
+                    // followed is its physical name (as printed), not a
+                    // lexically cleaned one: below a symlinked directory
+                    // "../y" is not what the spelling suggests.
+                    let fixname = relname.clone();
                     match g.kind() {
                         "unchanged" => {
                             if matches.is_present("unchanged") {
